@@ -4,7 +4,8 @@ for the configuration-dependent mechanisms modelled in `Model.lean` on the lower
 
 (a) `inline_preserves`, `inline_prog_preserves`, `inline_twice_preserves` — the inlining pass;
     `fold_preserves`, `inline_then_fold_preserves` — constant folding / dead-branch elimination on its output;
-(b) `tier_transparent`, `tier_hypothesis_needed` — interpreter / native hand-over;
+(b) `tier_transparent_partial`, `tier_hypothesis_needed` — interpreter / native hand-over (CONDITIONAL on the
+    per-instruction equivalence of the native tier, which is not proved);
 (c) `inline_history_partial`, `inline_history_false` — pieces evaluated one after another over global cells;
 (d) `switches_covered`, `switch_tests_recognised`, `quick_pairwise`, `thorough_complete` — the configuration sets
     of the differential run against the switches extracted from the source.
@@ -90,11 +91,19 @@ theorem inline_needs_arity_check :
 
 /-! ## (b) Tiers -/
 
-/-- **Tier transparency.**  If one native instruction does what the interpreter's instruction does, then for
-every schedule of hand-overs (enter native code, run `k + 1` instructions on the current tier, deoptimise — at
-any instruction boundary, any number of times) the machine computes exactly what the interpreter computes.
-The hypothesis is what the differential run tests; it is not proved (Cranelift code generation). -/
-theorem tier_transparent (fns : List FnDef) (native : VM → StepRes) (hN : ∀ vm, native vm = stepVM fns vm)
+/-- PARTIAL (conditional).  If one native instruction does what the interpreter's instruction does ON EVERY
+STATE, then for every schedule of hand-overs (enter native code, run `k + 1` instructions on the current tier,
+deoptimise — at any instruction boundary, any number of times) the machine computes exactly what the
+interpreter computes.
+MISSING for "whether native code generation is enabled … the same values and the same outcome":
+ * the hypothesis `hN` IS the content of the property for the JIT (Cranelift translation of every op code,
+   its runtime helpers, its deoptimisation paths): it is not proved, the differential run tests it and has
+   found it false (K02e, K02g, K02i).  Given `hN` the conclusion is an induction over the schedule: what the
+   theorem adds is only that the model's scheduler (`runSched`/`runK`/`runInterp`) composes steps;
+ * the hand-over STATE of the real protocol (first op code overwritten by a trampoline and the original kept
+   aside, `is_native` / `result` / `return_value`, frames of native code on the native stack) is not in the
+   model: both tiers step the same `VM` value, so "nothing is lost at a hand-over" holds by construction. -/
+theorem tier_transparent_partial (fns : List FnDef) (native : VM → StepRes) (hN : ∀ vm, native vm = stepVM fns vm)
     (sched : List Ev) (fuel : Nat) (vm : VM) :
     runTiered (mkImpl fns native) sched fuel vm = runVM fns (schedSteps sched + fuel) vm :=
   runTiered_eq fns native hN sched fuel vm
@@ -153,7 +162,12 @@ theorem inline_history_false : ¬ InlineHistoryFull 50 := by
   | zero => simp [Obs.value, evalIR] at hn
   | succ n => simp [Obs.value, evalIR, evalArgs] at hn
 
-/-! ## (d) Configurations -/
+/-! ## (d) Configurations
+
+The four statements of this section are `decide`d facts about TABLES: the list of environment variables the
+translator extracted from the source (`GenSwitches.lean`, regenerated) and the lists of configurations the
+differential run uses.  They say that the RUN visits the configurations it should; they say nothing about the
+behaviour of any program under any configuration. -/
 
 /-- Every environment variable steel-core reads by name is either one of the five modelled switches or on the
 list of variables that do not select an execution strategy; and all five switches are still there. -/
@@ -196,12 +210,67 @@ example : (evalIR (inlineProg [incFn, twiceFn] (unitPolicy []) 50) 1
   simp [evalIR, evalArgs, incFn, twiceFn, Op.apply, inlineProg, inlineFn, inline, inlineArgs, eligible, size, sizeArgs,
     unitPolicy, bindArgs, shift, shiftArgs, List.mapIdx, List.mapIdx.go]
 
+/-- `inline_preserves` / `inline_prog_preserves` APPLIED (every hypothesis instantiated): from the value of the
+original program the theorem gives the value of the rewritten one … -/
+example : ∃ F, evalIR (inlineProg [incFn, twiceFn] (unitPolicy []) 50) F
+    (inline [incFn, twiceFn] (fun _ => true) 50 0 (.call 1 [.const (.int 5)])) [] = some (.int 7, []) :=
+  (inline_preserves (rel_inlineProg 50 [incFn, twiceFn] (unitPolicy [])) (fun _ => true)
+    (.call 1 [.const (.int 5)]) [] (.int 7, [])).mp
+    ⟨3, by simp [evalIR, evalArgs, incFn, twiceFn, Op.apply]⟩
+example : ∃ F, (evalIR (inlineProg [incFn, twiceFn] (unitPolicy []) 50) F
+    (inline [incFn, twiceFn] (fun _ => true) 50 0 (.call 1 [.const (.int 5)])) []).map (·.1) = some (.int 7) :=
+  (inline_prog_preserves 50 [incFn, twiceFn] (unitPolicy []) (fun _ => true) (.call 1 [.const (.int 5)]) (.int 7)).mp
+    ⟨3, by simp [evalIR, evalArgs, incFn, twiceFn, Op.apply]⟩
+/-- … in a NON-EMPTY frame (the inlined body is shifted above the local): `(inc x)` with `x = 4` in slot 0 … -/
+example : inline [incFn, twiceFn] (fun _ => true) 50 1 (.call 0 [.loc 0]) =
+    .let1 (.loc 0) (.prim .add (.loc 1) (.const (.int 1))) := rfl
+example : ∃ F, evalIR (inlineProg [incFn, twiceFn] (unitPolicy []) 50) F
+    (inline [incFn, twiceFn] (fun _ => true) 50 1 (.call 0 [.loc 0])) [.int 4] = some (.int 5, [.int 4]) :=
+  (inline_preserves (rel_inlineProg 50 [incFn, twiceFn] (unitPolicy [])) (fun _ => true)
+    (.call 0 [.loc 0]) [.int 4] (.int 5, [.int 4])).mp
+    ⟨1, by simp [evalIR, evalArgs, incFn, Op.apply]⟩
+/-- … and an ERROR stays an error: `(inc #t)` has no value at any call depth on either side. -/
+example : ¬ ∃ F, ∃ r, evalIR (inlineProg [incFn, twiceFn] (unitPolicy []) 50) F
+    (inline [incFn, twiceFn] (fun _ => true) 50 0 (.call 0 [.const (.bool true)])) [] = some r := by
+  rintro ⟨F, r, h⟩
+  obtain ⟨F', h'⟩ := (inline_preserves (rel_inlineProg 50 [incFn, twiceFn] (unitPolicy [])) (fun _ => true)
+    (.call 0 [.const (.bool true)]) [] r).mpr ⟨F, h⟩
+  cases F' with
+  | zero => simp [evalIR] at h'
+  | succ F' => simp [evalIR, evalArgs, incFn, Op.apply] at h'
+/-- `inline_twice_preserves` applied: the second pass (threshold 75) runs on the output of the first. -/
+example (r : Val × List Val) :
+    (∃ F, evalIR [incFn, twiceFn] F (.call 1 [.const (.int 5)]) [] = some r) ↔
+    (∃ F, evalIR (inlineProg (inlineProg [incFn, twiceFn] (unitPolicy []) 50) (unitPolicy []) 75) F
+      (inline (inlineProg [incFn, twiceFn] (unitPolicy []) 50) (fun _ => true) 75 0
+        (inline [incFn, twiceFn] (fun _ => true) 50 0 (.call 1 [.const (.int 5)]))) [] = some r) :=
+  inline_twice_preserves (rel_inlineProg 50 _ _) (rel_inlineProg 75 _ _) _ _ _ [] r
+
 /-- Folding really removes code: the dead call of an undefined procedure disappears, a failing constant
 application stays. -/
 example : fold (.ite (.prim .lt (.const (.int 1)) (.const (.int 2))) (.const (.int 7)) (.call 9 [])) = .const (.int 7) := rfl
 example : fold (.prim .add (.const (.int 1)) (.const (.bool true))) = .prim .add (.const (.int 1)) (.const (.bool true)) := rfl
 
-/-- `tier_transparent` on a run that halts with a value while the schedule switches tiers three times. -/
+/-- `fold_preserves` / `inline_then_fold_preserves` applied: a dead branch with a call of an undefined procedure. -/
+example : evalIR ([incFn].map foldFn) 2
+      (fold (.ite (.prim .lt (.const (.int 1)) (.const (.int 2))) (.call 0 [.const (.int 6)]) (.call 9 []))) [] =
+    evalIR [incFn] 2 (.ite (.prim .lt (.const (.int 1)) (.const (.int 2))) (.call 0 [.const (.int 6)]) (.call 9 [])) [] :=
+  fold_preserves _ _ _ _
+example : evalIR [incFn] 2 (.ite (.prim .lt (.const (.int 1)) (.const (.int 2))) (.call 0 [.const (.int 6)]) (.call 9 [])) []
+    = some (.int 7, []) := by simp [evalIR, evalArgs, incFn, Op.apply, truthy]
+example (r : Val × List Val) :
+    (∃ F, evalIR [incFn, twiceFn] F (.call 1 [.const (.int 5)]) [] = some r) ↔
+    (∃ F, evalIR ((inlineProg [incFn, twiceFn] (unitPolicy []) 50).map foldFn) F
+      (fold (inline [incFn, twiceFn] (fun _ => true) 50 0 (.call 1 [.const (.int 5)]))) [] = some r) :=
+  inline_then_fold_preserves (rel_inlineProg 50 _ _) _ _ [] r
+
+/-- `tier_transparent_partial` applied (the only way to satisfy `hN` is a native tier that IS the interpreter's step),
+on a run that halts with a value while the schedule switches tiers three times. -/
+example : runTiered (mkImpl [sumFn] (stepVM [sumFn])) [.run 3, .enter, .run 20, .deopt, .run 2, .enter] 200
+      (initVM (.call 0 [.const (.int 4), .const (.int 0)])) =
+    runVM [sumFn] (schedSteps [.run 3, .enter, .run 20, .deopt, .run 2, .enter] + 200)
+      (initVM (.call 0 [.const (.int 4), .const (.int 0)])) :=
+  tier_transparent_partial _ _ (fun _ => rfl) _ _ _
 example : runTiered (mkImpl [sumFn] (stepVM [sumFn])) [.run 3, .enter, .run 20, .deopt, .run 2, .enter] 200
     (initVM (.call 0 [.const (.int 4), .const (.int 0)])) = some (.int 10) := by decide
 
@@ -219,5 +288,44 @@ example : ObsEquiv (runHistory .plain guarded []) (runHistory (.inlining 50) gua
 /-- cell 2 (`h`) got the body of `g` (a call of `f`), not a copy of `f`'s body. -/
 example : (runHistory (.inlining 50) guarded []).map (fun o => o.1.map (·.body)) =
     [[.const (.int 2), .call 0 [], .call 0 []]] := rfl
+
+/-! ## Clauses of the property not carried by a theorem -/
+
+/-
+What the theorems say, read together — all of it about the MODEL on the lowered core of C01 (integers and
+booleans, locals by frame offset, `if`/`let`/`begin`/`set!` of locals, binary primitives, calls of global
+first-order procedures of fixed arity; no I/O): one or two passes of the unit-local call inliner with its real
+legality conditions, followed or not by constant folding / dead-branch elimination, rewrite a program into one
+that yields a value iff the original does, and the same value (`inline_preserves`, `inline_prog_preserves`,
+`inline_twice_preserves`, `fold_preserves`, `inline_then_fold_preserves`); for evaluation histories this holds
+when no piece assigns a cell that an earlier piece could inline (`inline_history_partial`) and is FALSE in
+general (`inline_history_false`, finding K02a/D11); the tier scheduler composes steps IF each native
+instruction equals the interpreter's (`tier_transparent_partial`).
+
+NOT carried by any theorem (covered only by the per-program differential run of checks/c02.py):
+
+ * **STEEL_JIT — native code generation**: that the Cranelift translation of each accepted op code, its
+   runtime helpers and its deopt/fallback paths do what the interpreter does is the HYPOTHESIS of
+   `tier_transparent_partial`; the trampoline / saved-first-opcode / `is_native`-`result`-`return_value`
+   hand-over state is not modelled.  (Known false: K02g, K02i, K02j.)
+ * **STEEL_INLINE_RECURSIVE** (the recursive inliner): only a counterexample to its missing arity condition
+   (`inline_needs_arity_check`, K02b); no preservation theorem (K02f open).
+ * **STEEL_CLOSURE_LIFTING** and **STEEL_MODULE_INLINE**: not modelled at all (K02c open).
+ * **Combinations of the switches**: (d) says the run visits them; no theorem composes the passes beyond
+   inline → inline → fold.
+ * **"the same output"**: the core has no output or other effects besides `set!` of locals; the order and
+   number of evaluations of operands is preserved only in the sense of the final `(value, frame)`.
+ * **"the same error-or-success outcome"**: `evalIR` is `none` both for an error and for exhausted call depth,
+   so the theorems equate "has the value v" on both sides; an error and a divergence are not told apart,
+   and WHICH error is reported (kind, message, location — K02h) is not modelled.
+ * **Histories** ("later pieces redefine or assign globals that earlier compiled functions call"): proved
+   only for the unit-local inliner and only under `noLaterAssign`; redefinition (`define` of an existing name
+   = a new cell), assignment from inside procedure bodies, histories under the native tier (native code
+   holding a global's old value), and histories with module imports are not modelled.
+ * **All deterministic programs**: closures, higher-order calls, variadic procedures, data structures, strings,
+   floats, continuations, `dynamic-wind`, macros, modules are outside the lowered core.
+ * **That the model of the inliner is the inliner**: `inline`/`eligible`/`unitPolicy` are a transcription of
+   `analysis.rs` onto absolute frame offsets; only the LIST OF SWITCHES is regenerated from the source.
+-/
 
 end SteelVerif.C02
